@@ -338,6 +338,24 @@ func c19PositionRun(w *Worker, lexeme, gap string, fieldIdx map[string]int, rep 
 		}{{"LineNumber", interp.TokLine}, {"StartCharIndex", interp.TokStartChar}, {"StartUtf8CharIndex", interp.TokStartUtf8}, {"EndLineNumber", interp.TokEndLine}, {"EndCharIndex", interp.TokEndChar}, {"EndUtf8CharIndex", interp.TokEndUtf8}} {
 			ev, err := interp.EvalInt(interp.IntTerm(tok[f.idx]), model)
 			if err != nil || int64(t[f.name].(float64)) != ev {
+				// The havocked pre-state assumes the representation invariant of
+				// the position counters. If the natively reached state differs,
+				// either the real lexer does not maintain that invariant - then
+				// the native positions themselves are checked against the source
+				// text - or the engine is wrong.
+				full := prefix + src
+				lines := strings.Split(full, "\n")
+				ln := int(t["LineNumber"].(float64))
+				sb, su := int(t["StartCharIndex"].(float64)), int(t["StartUtf8CharIndex"].(float64))
+				lit, _ := t["Literal"].(string)
+				okNative := ln >= 1 && ln <= len(lines) && sb <= len(lines[ln-1]) && strings.HasPrefix(lines[ln-1][sb:], firstPiece(lexeme)) && utf8.RuneCountInString(lines[ln-1][:sb]) == su
+				if !okNative && !stopped {
+					stopped = true
+					rep.violation(&Finding{Property: "C19", Case: fmt.Sprintf("c19/positions/%q/%q", gap, lexeme), Sub: "positions", Shape: shape, Confirmed: true,
+						Msg:     fmt.Sprintf("on the native lexer token %q of %q is reported at line %d, byte column %d, character column %d, which does not locate its first character", lit, full, ln, sb, su),
+						Sources: map[string]string{"source": full}, Outputs: map[string]string{"token": fmt.Sprint(t)}})
+					return
+				}
 				rep.engineMismatch(fmt.Sprintf("lexer positions on %q: %s engine %d native %v", prefix+src, f.name, ev, t[f.name]))
 				return
 			}
@@ -523,4 +541,12 @@ func RunC19(env *Env, rep *Report) {
 			c19LayoutRun(w, j.lex, j.gap, rep)
 		}
 	})
+}
+
+// firstPiece is the source text with which the token of a lexeme starts.
+func firstPiece(lexeme string) string {
+	if i := strings.IndexByte(lexeme, '"'); i > 0 {
+		return lexeme[:i]
+	}
+	return lexeme
 }
